@@ -161,5 +161,13 @@ theorem redelegation_keeps_staked_total_and_custody_cover (del : Acct) (s t' : V
     (w w' : World) (hg : Good d w) (h : step (.redelegate del s t' d' amt) w = (.ok (), w')) :
     staked w' d = staked w d ∧ gap w d ≤ gap w' d ∧ Good d w' := redelegate_keeps_staked_total del s t' d' amt d w w' hg h
 
+
+/-- INV-R holds along histories WITH chain restarts: whatever state is exported, the three redelegation stores agree with
+    one another after the import (every queued entry has its record and index key and conversely) -/
+theorem stores_agree_across_restarts (w w' : World) (hrx : RX w) (hr : ReachRG w w') : RX w' :=
+  reach_rx_with_restarts w w' hrx hr
+
+theorem restart_gives_agreement (w w' : World) (h : reimport w = (.ok (), w')) : RX w' := reimport_gives_rx w w' h
+
 end C15
 end Alliance
